@@ -11,10 +11,7 @@ LEVEL = ('Static rules over the recognisers and conversions in utilities.cpp and
 ASSUMPTIONS = ['std::stod/std::stoi throw only std::invalid_argument (no conversion possible) and std::out_of_range, as the C++ standard specifies',
                'a string accepted by the recognisers (sign, digits, one point, optional e-part) is convertible by std::stod/std::stoi']
 
-STO_EXEMPT = {
-    'Analyser::AnalyserImpl::powerValue|std::stod(ast->value())':
-        'value of a <cn> AST node: the analyser runs only behind the validator gate (C01.G1) and the validator screens cn text with isCellMLReal (rule C16.U2); out-of-range cn text is a separate finding only if it appears',
-}
+STO_EXEMPT = {}   # the former exemption of AnalyserImpl::powerValue was unsound (e-notation cn out of range) and is gone with the repair cb4ff39
 
 
 def chars_compared_with_first(f, pname):
@@ -121,8 +118,8 @@ def run(F, rep):
     # ---------------------------------------------------------------- X: conversions never throw
     rep.rule('C16.X1', 'every std::sto* call is applied only to text accepted by the recogniser of its kind (here or in every caller) - sto* itself accepts a larger language - and handles out_of_range')
     n = exc.sto_rule(F, rep, 'C16.X1', STO_EXEMPT, require_screen=True)
-    if n < 5:
-        raise AnalysisBroken('C16.X1: %d sto* sites found, 6 confirmed' % n)
+    if n < 4:
+        raise AnalysisBroken('C16.X1: %d sto* sites found, 4 confirmed (utilities.cpp x2, units.cpp, validator.cpp)' % n)
     rep.rule('C16.X2', 'no throw expression in src')
     exc.throw_rule(F, rep, 'C16.X2')
 
